@@ -170,9 +170,10 @@ class Mem2RegPromotor(FunctionPass):
         if loads:
             phis = self.place_phi_nodes(stores, phi_ty, name, cfg_info)
 
-            # Preserve debug info:
-            for phi in phis:
-                self.debug_db.map(alloc, phi)
+            # Preserve debug info (modules read from text carry none):
+            if self.debug_db is not None:
+                for phi in phis:
+                    self.debug_db.map(alloc, phi)
 
             # Create undefined value at start:
             initial_value = ir.Undefined(f"und_{name}", phi_ty)
